@@ -17,7 +17,7 @@ RULE = ("cases from rng(seed, 12, 0, i): graphs of all pose types (trajectory an
         "(all vertices fixed / exactly consistent measurements / linear graph at its optimum); tol in {0, 1e-12..1e-1}, max_iter 1..30 (quick: ..12), verbose in {True, False}; "
         "one call vs single-iteration driving; random (all for n<=5) compositions k1+..+km=n. distinct = fingerprint(spec, tol, max_iter); non-trivial = run with >= 2 iterations.")
 REQ = ["eval:stopping-rule", "eval:report-chi2-sequence", "eval:final-state-is-trajectory-state", "eval:final-chi2-is-calc_chi2", "eval:verbose-does-not-alter", "eval:split-run-reproduces",
-       "eval:printed-table-matches-report", "class:early_stop", "class:max_iter_stop", "class:stationary", "class:diverging", "class:tol=0", "class:converged_at_max_iter", "class:singular", "class:nan_chi2_in_trace"]
+       "eval:printed-table-matches-report", "eval:str(result)-matches-report", "class:early_stop", "class:max_iter_stop", "class:stationary", "class:diverging", "class:tol=0", "class:converged_at_max_iter", "class:singular", "class:nan_chi2_in_trace"]
 PLAN = {
     "quick": {"cases": 1200, "soft_s": 80, "min_nontrivial": 300, "require": REQ},
     "thorough": {"cases": 48000, "soft_s": 1400, "min_nontrivial": 10000, "require": REQ},
@@ -183,6 +183,14 @@ def report_check(ctx, rng, spec, gkind, tol, max_iter, ffp):
     with np.errstate(all="ignore"):
         c_now = float(g2.calc_chi2())
     ctx.check("final-chi2-is-calc_chi2", same_float(res.final_chi2, c_now), feats, {"final_chi2": res.final_chi2, "calc_chi2": c_now}, case)
+    try:
+        text = str(res)
+        okstr = ("Converged = %s" % bool(res.converged)) in text and ("Iterations = %d" % res.num_iterations) in text and ("%.4f" % res.initial_chi2) in text and ("%.4f" % res.final_chi2) in text
+        nrows = len([ln for ln in text.splitlines() if re.match(r"^\s*\d+\s", ln)])
+        okstr = okstr and nrows == stop
+    except Exception as ex:
+        okstr, text = False, "raised " + type(ex).__name__
+    ctx.check("str(result)-matches-report", okstr, feats, {"text": text[:400]}, case)
     dur_ok = res.duration_s is not None and res.duration_s >= 0 and all((r.duration_s is None or r.duration_s >= 0) for r in res.iteration_results)
     ctx.check("durations-present", dur_ok, feats, None, case)
     # verbose does not alter
